@@ -155,6 +155,13 @@ func (m *recMgr) files() []string {
 	return out
 }
 
+// PolicyProbeObs: does the VirtualServer file contain the rule of the Policy before / after the Policy moved to another class
+type PolicyProbeObs struct {
+	Ran    bool `json:"ran"`
+	Before bool `json:"before"`
+	After  bool `json:"after"`
+}
+
 // LeaderObs is what the controller writes when it acquires leadership at the end of the history
 type LeaderObs struct {
 	Writes   []k8s.VStatusWrite `json:"writes"`
@@ -169,6 +176,7 @@ type Case struct {
 	Ctl         []CtlStep         `json:"ctl,omitempty"` // main history through LoadBalancerController.sync (with -ctl)
 	Leader      *LeaderObs        `json:"leader,omitempty"`
 	WeightProbe *k8s.VWeightProbe `json:"weight_probe,omitempty"`
+	PolicyProbe *PolicyProbeObs   `json:"policy_probe,omitempty"`
 	Error       string            `json:"error,omitempty"`
 }
 
@@ -1059,6 +1067,17 @@ func runCtl(c *Case, anns map[string]int) (err error) {
 	}
 	wp := v.WeightProbe()
 	c.WeightProbe = &wp
+	// a Policy in use moves to another class: the rule it contributed must leave the VirtualServer
+	pp := &PolicyProbeObs{}
+	if err := v.PolicyProbe(1); err == nil {
+		pp.Before = strings.Contains(mgr.conf["vs_pp_cafe"], "deny 10.11.12.13;")
+		if err := v.PolicyProbe(2); err == nil {
+			pp.After = strings.Contains(mgr.conf["vs_pp_cafe"], "deny 10.11.12.13;")
+			pp.Ran = true
+		}
+	}
+	_ = v.PolicyProbe(3)
+	c.PolicyProbe = pp
 	c.Leader = &LeaderObs{Writes: v.Leader(), Policies: k8s.VerifPolicies}
 	return nil
 }
